@@ -182,6 +182,9 @@ HdrConst(env, c) == /\ env.h = 1
 
 ClientWrite(env) ==
   /\ ~cfg.rawcli
+  \* what an endpoint writes carries no route record of its own making and (a client) no route to follow: the record is
+  \* the relays' to write - also when an envelope shares its header object with one a relay has already seen (C16)
+  /\ G("route", env.rec = 0 /\ env.nxt = 0)
   /\ \/ \* first envelope of a call: carries the call token
         /\ env.c \in DOMAIN calls
         /\ calls[env.c].id = ""
@@ -448,6 +451,7 @@ HasNextSend(x) == \E j \in (x.lastW + 1)..Len(x.sent) : x.sres[j] # "err"
 
 ServerWrite(env) ==
   /\ ~cfg.rawsrv
+  /\ G("route", env.rec = 0)
   /\ G("wire", Sin(env.id).n > 0)         \* only for ids it has received
   /\ \/ \* reset answering a body (or an undecodable open) for a stream it does not know
         /\ env.r = 1 /\ env.t = 1 /\ env.b = 0 /\ env.rtype = "RST_STREAM"
